@@ -3,27 +3,54 @@ package props
 import (
 	"fmt"
 	"runtime/debug"
+	"sync/atomic"
 	"testing"
 	"testing/synctest"
+	"time"
 )
+
+// stuckSeen is set once a bubble failed to finish in real time: the goroutines of
+// that bubble are wedged for good (typically a goroutine waiting for a mutex whose
+// holder is blocked forever — a state synctest can neither time-advance nor report),
+// so later scenarios in this process are not started (they report the same problem
+// at once, which also keeps rapid's shrinking from hanging again and again).
+var stuckSeen atomic.Bool
+
+const stuckAfter = 45 * time.Second // real time; scenarios normally take about a millisecond
 
 // inBubble runs f inside a testing/synctest bubble (virtual time; every
 // goroutine started in f must have exited when f returns, otherwise the
-// bubble reports a deadlock). It returns a description of a panic or deadlock,
-// or "". The outer *testing.T is only used to host the bubble.
+// bubble reports a deadlock). It returns a description of a panic, deadlock or
+// real-time hang, or "". The outer *testing.T is only used to host the bubble.
 func inBubble(t *testing.T, f func()) (problem string) {
-	defer func() {
-		if p := recover(); p != nil {
-			problem = fmt.Sprintf("%v", p)
-		}
-	}()
-	synctest.Test(t, func(_ *testing.T) {
+	if stuckSeen.Load() {
+		return "stuck: an earlier scenario in this process never finished (goroutines wedged)"
+	}
+	done := make(chan string, 1)
+	go func() {
+		var p string
 		defer func() {
-			if p := recover(); p != nil {
-				problem = fmt.Sprintf("panic in bubble: %v\n%s", p, clipS(string(debug.Stack())))
+			if r := recover(); r != nil {
+				p = fmt.Sprintf("%v", r)
 			}
+			done <- p
 		}()
-		f()
-	})
-	return problem
+		synctest.Test(t, func(_ *testing.T) {
+			defer func() {
+				if r := recover(); r != nil {
+					p = fmt.Sprintf("panic in bubble: %v\n%s", r, clipS(string(debug.Stack())))
+				}
+			}()
+			f()
+		})
+	}()
+	timer := time.NewTimer(stuckAfter)
+	defer timer.Stop()
+	select {
+	case p := <-done:
+		return p
+	case <-timer.C:
+		stuckSeen.Store(true)
+		return fmt.Sprintf("stuck: the scenario did not finish within %v of real time (a goroutine is wedged, e.g. waiting for a lock whose holder is blocked forever)", stuckAfter)
+	}
 }
